@@ -238,6 +238,24 @@ def part_value(ctx, cfg):
     ctx.claim('C15.composite', AND(cl), sig='composite',
               info=lambda: dict(initial_state=ist, default_state=dst, own={
                   str(k): v for k, v in own.items()}, **info()))
+    # a second use of the same Composite object, without a config, knows
+    # nothing of the initial state given to the first call
+    ist2 = comp.initial_state()
+    cl = [not _has_multi(ist2), not comp['state']]
+    for (n, node), ov in own.items():
+        a = get(ist2, node, KeyError)
+        others = [v for (n2, nd), v in own.items() if nd == node and n2 != n]
+        cl.append(False if a is KeyError else
+                  OR([EQ(a, x) for x in others + [ov]]))
+    own_nodes = {nd for (_, nd) in own}
+    for node in given:
+        if node not in own_nodes:
+            cl.append(get(ist2, node, KeyError) is KeyError)
+    ctx.claim('C15.composite', AND(cl), sig='composite-second-use',
+              info=lambda: dict(first=ist, second=ist2,
+                                composite_state=comp['state'], own={
+                                    str(k): v for k, v in own.items()},
+                                **info()))
     comp2 = Composite({'processes': processes, 'topology': topology,
                        'steps': steps, 'flow': flow,
                        'state': copy.deepcopy(init)})
